@@ -4,6 +4,7 @@ import sys
 
 sys.path.insert(0, os.path.dirname(__file__))
 import vlib
+import monitors
 
 NONE = ()
 
@@ -131,8 +132,8 @@ PROPS = {
     ),
     "C12": dict(
         props_file="Props/C12.v",
-        families=[("multi", NONE, 200), ("fault", NONE, 100)],
-        projection="C12", monitors=["C03", "C04", "C05", "C11"],
+        families=[("multi", NONE, 150), ("multi", ("dd",), 150), ("fault", NONE, 100)],
+        projection="C12", monitors=["C03", "C04", "C05", "C11", "C12"],
     ),
     "C08": dict(
         props_file="Props/C08.v",
@@ -156,6 +157,20 @@ PROPS = {
         props_file="Props/C13.v",
         families=[("time", ("testutils",), 150), ("fault", ("testutils",), 100), ("core", NONE, 50)],
         projection="C13", monitors=["C13"],
+    ),
+    "C14": dict(
+        props_file="Props/C14.v",
+        families=[("multi", ("dd",), 300)],
+        projection="C14", monitors=["C14"],
+        level_note="The walk's exactness and the panic-iff-cycle rule are proved for every graph and every cycle length; that the tracked graph holds the edge of every in-flight ask made from a hook is tied by the correspondence (graph read through the --cfg rsactor_verif hook at every quiescent point), not yet by an invariant proof.",
+    ),
+    "C15": dict(
+        props_file="Props/C15.v",
+        families=[("multi", ("dd",), 300)],
+        projection="C15", monitors=["C15"],
+        classify=monitors.classify_stale,
+        level_text="The full statement is refuted in the model by a closed witness (C15_refuted) that replays on the real code (known finding, KNOWN_FINDINGS.txt); proved: soundness with respect to the tracked graph (partial: modulo edges of answered-but-not-yet-resumed asks) and that non-actor callers are never tracked; the wait-for graph is compared with the model at every quiescent point through the verification hook (no residue).",
+        level_note="Partial: soundness is relative to the tracked graph; 'no residue' is tied by the correspondence and the quiescence monitor, not yet by an invariant proof.",
     ),
     "C19": dict(
         props_file="Props/C19.v",
@@ -192,6 +207,11 @@ PROPS = {
 
 # not registered in MANIFEST: everything at once, for testing the machinery against seeded changes
 DEV = {
+    "DD": dict(
+        props_file="Props/C12.v",
+        families=[("multi", ("dd",), 300)],
+        projection="full", monitors=["C03", "C04", "C05"],
+    ),
     "ALL": dict(
         props_file="Props/C04.v",
         families=[("core", NONE, 150), ("time", NONE, 100), ("fault", NONE, 150), ("hostile", NONE, 50)],
